@@ -24,7 +24,18 @@
    byte-array forms of the admission `patch` field (type []byte: a JSON string or array is
    accepted here without looking inside), float64 overflow (1e999), invalid UTF-8, nesting
    deeper than 10000, and what prometheus does with a metric beyond "a family of that name
-   appears" (see [metric_effect]). *)
+   appears" (see [metric_effect]).
+
+   THE HOOK'S ENVIRONMENT is modelled from the operator's own environment [i_env] on: Hook.Run
+   builds envs = os.Environ() ++ the six per-execution variables (hook.go), NewExecutor sets
+   cmd.Env = append(cmd.Env, envs...) on a fresh exec.Command (executor.go; an empty result leaves
+   cmd.Env nil = "inherit"), os/exec removes duplicates in favour of the LAST value (dedupEnv).
+   What the hook finds under a variable is [getenv (child_env ...)]; the hook writes each output
+   to the path it finds under the variable, the operator reads back ITS OWN files ([readback]):
+   an output written through a variable that does not point to this execution's file is lost.
+   [exec] = [run] on what is read back.  The `--config` call (hook_manager.go, no per-execution
+   variables) is [config_env].  Not modelled: entries without '=', NUL bytes, case-insensitive
+   platforms. *)
 From Verif Require Import Common Json JsonText.
 Open Scope N_scope.
 
@@ -34,7 +45,9 @@ Record input := mkIn {
   i_exit : Z;
   i_metrics : fkind; i_patch : fkind; i_admission : fkind; i_conversion : fkind;
   i_concurrent : bool;
-  i_namelen : N            (* length of the sanitized hook name; 0 = the default short name *)
+  i_namelen : N;           (* length of the sanitized hook name; 0 = the default short name *)
+  i_env : list (N * N)     (* the operator's OWN environment (os.Environ(), in order): variable, value;
+                              variables 0..5 are the six contract variables, others are unrelated *)
 }.
 
 Definition name_max : N := 255.
@@ -49,6 +62,85 @@ Fixpoint prepare (ls : list N) (created : N) : N * bool :=
   match ls with
   | [] => (created, true)
   | l :: r => if N.leb l name_max then prepare r (created + 1) else (created, false)
+  end.
+
+
+(* ------------------------------------------------------------------ the hook's environment *)
+
+(* a value of a variable: the path of this execution's temp file number f (creation order:
+   0 binding context, 1 metrics, 2 admission response, 3 conversion response, 4 object patch),
+   a value from the operator's own environment (dense number), or - in observations only -
+   anything else *)
+Inductive eval := Own (f : N) | Foreign (v : N) | Unknown.
+Definition env := list (N * eval).
+
+Definition eval_eqb (a b : eval) : bool :=
+  match a, b with
+  | Own f, Own g => f =? g
+  | Foreign v, Foreign w => v =? w
+  | Unknown, Unknown => true
+  | _, _ => false
+  end.
+
+Definition var_context : N := 0.      (* BINDING_CONTEXT_PATH *)
+Definition var_metrics : N := 1.      (* METRICS_PATH *)
+Definition var_conversion : N := 2.   (* CONVERSION_RESPONSE_PATH *)
+Definition var_validating : N := 3.   (* VALIDATING_RESPONSE_PATH *)
+Definition var_admission : N := 4.    (* ADMISSION_RESPONSE_PATH *)
+Definition var_patch : N := 5.        (* KUBERNETES_PATCH_PATH *)
+Definition file_context : N := 0.
+Definition file_metrics : N := 1.
+Definition file_admission : N := 2.
+Definition file_conversion : N := 3.
+Definition file_patch : N := 4.
+
+(* hook.go:144-149, in this order *)
+Definition per_exec_vars : env :=
+  [(var_context, Own file_context); (var_metrics, Own file_metrics); (var_conversion, Own file_conversion);
+   (var_validating, Own file_admission); (var_admission, Own file_admission); (var_patch, Own file_patch)].
+
+(* os.Environ() of the operator process *)
+Definition os_environ (e : list (N * N)) : env := map (fun kv => (fst kv, Foreign (snd kv))) e.
+
+(* Hook.Run: envs = append(envs, os.Environ()...); then the six appends *)
+Definition hook_envs (inherited : env) : env := inherited ++ per_exec_vars.
+
+(* NewExecutor: cmd.Env = append(cmd.Env, envs...) with cmd.Env == nil; Cmd.environ(): a nil
+   cmd.Env means the environment of the current process *)
+Definition executor_env (process envs : env) : env :=
+  match [] ++ envs with
+  | [] => process
+  | l => l
+  end.
+
+(* os/exec dedupEnv: of several entries with one key the LAST is kept (order of the kept ones preserved) *)
+Fixpoint dedup_env (l : env) : env :=
+  match l with
+  | [] => []
+  | (k, v) :: r => if existsb (fun e => fst e =? k) r then dedup_env r else (k, v) :: dedup_env r
+  end.
+
+(* getenv in the child: the entry with that key *)
+Fixpoint getenv (e : env) (k : N) : option eval :=
+  match e with
+  | [] => None
+  | (k', v) :: r => if k' =? k then Some v else getenv r k
+  end.
+
+(* the environment of a hook execution, given the operator's own environment *)
+Definition child_env (e : list (N * N)) : env :=
+  dedup_env (executor_env (os_environ e) (hook_envs (os_environ e))).
+
+(* the environment of the `--config` call: execCommandOutput passes append(os.Environ(), envs...) with envs empty *)
+Definition config_env (e : list (N * N)) : env :=
+  dedup_env (executor_env (os_environ e) (os_environ e ++ [])).
+
+(* the hook writes content c through variable k; the operator reads its own file f: it finds c
+   only if the variable points to that file *)
+Definition written (e : env) (k f : N) (c : fkind) : fkind :=
+  match getenv e k with
+  | Some (Own g) => if g =? f then c else FEmpty
+  | _ => FEmpty
   end.
 
 (* ------------------------------------------------------------------ encoding/json: object -> struct *)
@@ -367,3 +459,26 @@ Definition run (i : input) : outcome :=
            (match metrics_effect (i_metrics i) with TYes => true | _ => false end)
            (match metrics_effect (i_metrics i) with TMaybe => true | _ => false end)
            (patch_has_content (i_patch i)).
+
+(* what the operator finds in this execution's own output files after the hook has written its
+   outputs to the paths in ITS environment *)
+Definition readback (i : input) : input :=
+  let e := child_env (i_env i) in
+  mkIn (i_exit i)
+       (written e var_metrics file_metrics (i_metrics i))
+       (written e var_patch file_patch (i_patch i))
+       (written e var_admission file_admission (i_admission i))
+       (written e var_conversion file_conversion (i_conversion i))
+       (i_concurrent i) (i_namelen i) (i_env i).
+
+(* one execution, from the operator's environment to the task result *)
+Definition exec (i : input) : outcome := run (readback i).
+
+(* one of the hook's outputs landed in a file that is not of this execution *)
+Definition foreign_written (i : input) : bool :=
+  existsb (fun k => match getenv (child_env (i_env i)) k with Some (Foreign _) => true | _ => false end)
+          [var_metrics; var_patch; var_admission; var_conversion].
+
+(* what the hook finds under the variables [ks] *)
+Definition env_view (i : input) (ks : list N) : list (N * option eval) :=
+  map (fun k => (k, getenv (child_env (i_env i)) k)) ks.
